@@ -204,7 +204,7 @@ pub fn check_cross(zoo: &Zoo, w_e: usize, r_e: usize, v: &Value) -> Result<&'sta
     Ok("decoded")
 }
 
-const RULE: &str = "programs: 60 compiled schema pairs (V1, V2 = V1 + k appended extension additions, k = 1..8; SEQUENCE / SET / CHOICE / ENUMERATED; V1 already carrying 0..2 additions; addition encodings in the length classes 1..63, 64..127, 128..300 octets; the versioned type at top level, in a root component, in an extension addition of an outer type, as list element); inputs: values of either version (proptest), written by one version followed by a sentinel (INTEGER(0..255)=0xA5, BOOLEAN) into the same writer and read by the other version. Oracle: content equals the projection/lift computed on the abstract schemas, unknown additions skipped, unknown CHOICE/ENUMERATED values: Err accepted, Ok is a violation; reader stops exactly at the end of the message; sentinel decodes; writer bits == reference X.691. Non-trivial: an addition unknown to the reader is present, or the reader knows additions the writer lacks while the extension is present; distinct = (pair, direction, value).";
+const RULE: &str = "programs: 64 compiled schema pairs (V1, V2 = V1 + k appended extension additions, k = 1..8; SEQUENCE / SET / CHOICE / ENUMERATED, and an untagged CHOICE inside a SET with explicit tags whose appended alternatives have smaller tags than all root alternatives; V1 already carrying 0..2 additions; addition encodings in the length classes 1..63, 64..127, 128..300 octets; the versioned type at top level, in a root component, in an extension addition of an outer type, as list element); inputs: values of either version (proptest), written by one version followed by a sentinel (INTEGER(0..255)=0xA5, BOOLEAN) into the same writer and read by the other version. Oracle: content equals the projection/lift computed on the abstract schemas, unknown additions skipped, unknown CHOICE/ENUMERATED values: Err accepted, Ok is a violation; reader stops exactly at the end of the message; sentinel decodes; writer bits == reference X.691. Non-trivial: an addition unknown to the reader is present, or the reader knows additions the writer lacks while the extension is present; distinct = (pair, direction, value).";
 
 pub fn run(ctx: Ctx) -> i32 {
     let report = Report::new(ctx.clone(), RULE);
